@@ -29,9 +29,9 @@ type VarsCase struct {
 	// ProjDir names the directory holding the spokfile ("" = proj)
 	ProjDir string `json:"proj_dir,omitempty"`
 	// Invoke: how spok is pointed at the project (sandbox.Box.Invoke)
-	Invoke  string            `json:"invoke,omitempty"`
+	Invoke string `json:"invoke,omitempty"`
 	// Outputs: "files" = standard output and error are regular files (sandbox.Box.FileOutputs)
-	Outputs string `json:"outputs,omitempty"`
+	Outputs string            `json:"outputs,omitempty"`
 	Vars    []VarDef          `json:"vars"`
 	Ambient map[string]string `json:"ambient"`
 	DotEnv  map[string]string `json:"dotenv"`
